@@ -59,7 +59,7 @@ theorem windows_flatten (rep : Nat) (meas : List Window) (cs : List Loop) (I0 : 
   have he : (itemsNodes I0).isEmpty = false := by simpa using hne
   simp only [he, Bool.false_eq_true, if_false, Option.some.injEq] at hroot
   subst hroot
-  rw [applyItems_eq, applyItems_eq, Loop.windows, Loop.windows, bodyDuration_none, bodyDuration_none]
+  rw [applyItems_eqC, applyItems_eqC, Loop.windows, Loop.windows, bodyDuration_none, bodyDuration_none]
   have hd : Loop.durationList (cs ++ itemsNodes [Item.measure (rootOf I0).windows, Item.node (leaf w)]) =
       Loop.durationList (cs ++ itemsNodes I0) := by
     rw [durationList_append, durationList_append]
